@@ -475,21 +475,24 @@ def _impl_ctor(case):
             return _table_arg(x, case.get('arg_form', 'array'))
         return _num(x, nk)
     first = {'from_spl': 'spl', 'from_db': 'level', 'from_pascals': 'magnitude'}.get(name)
-    if cls_name == 'flat':
-        if name == 'unity':
-            cal = cls.unity()
-        elif name == 'as_attenuation':
-            cal = cls.as_attenuation(**kw) if omit else cls.as_attenuation(arr(A['vrms']), **kw)
-        elif name == 'from_mv_pa':
-            cal = cls.from_mv_pa(arr(A['mv_pa']), **kw)
+    def build():
+        if cls_name == 'flat':
+            if name == 'unity':
+                cal = cls.unity()
+            elif name == 'as_attenuation':
+                cal = cls.as_attenuation(**kw) if omit else cls.as_attenuation(arr(A['vrms']), **kw)
+            elif name == 'from_mv_pa':
+                cal = cls.from_mv_pa(arr(A['mv_pa']), **kw)
+            else:
+                cal = getattr(cls, name)(arr(A[first]), **kw) if omit else getattr(cls, name)(arr(A[first]), arr(A['vrms']), **kw)
         else:
-            cal = getattr(cls, name)(arr(A[first]), **kw) if omit else getattr(cls, name)(arr(A[first]), arr(A['vrms']), **kw)
-    else:
-        x = arr(A[first])
-        if not isinstance(A[first], list):
-            x = np.full(len(F), float(A[first]))
-        fq = _table_arg(F, case.get('form_f', 'array'))
-        cal = getattr(cls, name)(fq, x, **kw) if omit else getattr(cls, name)(fq, x, arr(A['vrms']), **kw)
+            x = arr(A[first])
+            if not isinstance(A[first], list):
+                x = np.full(len(F), float(A[first]))
+            fq = _table_arg(F, case.get('form_f', 'array'))
+            cal = getattr(cls, name)(fq, x, **kw) if omit else getattr(cls, name)(fq, x, arr(A['vrms']), **kw)
+        return cal
+    cal = build()
     res = {'sens': _nl(cal.sensitivity), 'reference': cal.reference}
     qs = F
     vr = 1.0 if omit else A.get('vrms', 1.0)
@@ -504,6 +507,13 @@ def _impl_ctor(case):
         res['alias'] = [_n(cal.get_spl(q, x)) for q, x in zip(qs, vrl)]
     L = _num(case['L'], nk)
     res['sf_L'] = [_n(cal.get_sf(q, L)) for q in qs]
+    # two objects from the SAME constructor call are independent: giving one another fixed gain leaves the other alone
+    twin = build()
+    g_old = cal.fixed_gain
+    cal.set_fixed_gain(g_old + 20)
+    res['twin_sf_L'] = [_n(twin.get_sf(q, L)) for q in qs]
+    res['moved_sf_L'] = [_n(cal.get_sf(q, L)) for q in qs]
+    cal.set_fixed_gain(g_old)
     return res
 
 
@@ -845,6 +855,13 @@ def _oracle_ctor(case, res):
     name, A, L = case['ctor'], case['args'], case['L']
     n = len(res['sens'])
     fg = case.get('fixed_gain') or 0.0
+    if 'twin_sf_L' in res:
+        for a0, a1, a2 in zip(res['sf_L'], res['twin_sf_L'], res['moved_sf_L']):
+            if not (_iserr(a0) or _iserr(a1)) and a0 is not None and a1 is not None and a1 != a0:
+                return (f'{case["cls"]}.{name}: a SECOND object from the same constructor call changed ({a0} -> {a1}) when the first '
+                        f'one was given 20 dB more fixed gain')
+            if not (_iserr(a0) or _iserr(a2)) and a0 is not None and a2 is not None and not _close(a2, a0 * 10.0):
+                return f'{case["cls"]}.{name}: +20 dB fixed gain scales get_sf by {a2 / a0 if a0 else None}, not by 10'
 
     def at(x, i):
         return x[i] if isinstance(x, list) else x
